@@ -1,5 +1,6 @@
 """Link-level properties: C01 (conforming accepted), C02 (fault catalogue), C06 (link isolation),
 C07 (offsets / quoted bytes), C13 (ALPIDE frames), C20 (custom checks)."""
+import json
 import os, re, struct, json, shutil
 import fplib as L
 import fpgen as G
@@ -98,6 +99,30 @@ def run_c01(ck, ctx):
     dis = compare_model(ck, 'run_conforming', cj, cr, reqs)
     ck.sample(dict(meta=jobs[0][1], args=mode_args(jobs[0][2]), input_bytes=len(jobs[0][5])))
     report_dis(ck, 'run_conforming', dis)
+    # non-vacuity of `conforming_its_accepted` at scale: every link of every generated stream must be inside
+    # the protocol grammar (Spec.Protocol) the theorem quantifies over. A stream outside the grammar is not a
+    # violation of the property (the code is right to accept it); it is a stream the theorem does not cover,
+    # and is reported in the evidence.
+    creq, seen = [], set()
+    for j in jobs:
+        i, meta, m, opt, via, data = j
+        if i in seen: continue
+        seen.add(i)
+        walk = chain_walk(data)
+        links = {}
+        for o, h, p in walk: links.setdefault(h[12], []).append((o, h, p))
+        for l, pks in links.items():
+            toks = ' '.join(f'{o}:{G.hexs(h)}:{G.hexs(p)}' for o, h, p in pks)
+            for running in (0, 1):
+                creq.append((i, l, running, f'conf running={running} -- {toks}'))
+    if creq:
+        out = L.run_driver([c[3] for c in creq])
+        rej = []
+        for c, o in zip(creq, out):
+            ck.count('grammar_' + ('conforms' if o.startswith('CONFORMS') else 'outside'))
+            if not o.startswith('CONFORMS'): rej.append(dict(stream=c[0], link=c[1], running=c[2], reply=o))
+        if rej:
+            ck.notes.append('generated links outside the grammar of conforming_its_accepted (not covered by that theorem): ' + json.dumps(rej[:6]))
 
 
 # =============================================================== C02: fault catalogue
@@ -430,9 +455,22 @@ def run_c07(ck, ctx):
     for si in range(n):
         base, meta = G.conforming_stream(R, nlinks=R.randint(1, 4), max_hbf=3)
         pk = [p.clone() for p in base]
+        # half of the streams: one link changes its data format at an HBF boundary (each packet's layout
+        # still agrees with its own header), and a word behind the change is corrupted
+        # some streams also carry RDH-only packets (payload size 0) of an extra link: the offset bookkeeping
+        # of the scanner must not depend on packets having a payload
+        if si % 3 != 2:
+            for _ in range(R.randint(1, 4)):
+                pos = R.randint(1, len(pk))
+                pk.insert(pos, G.Pkt(dict(link=13, fee=0x6000 | 13, orbit=R.getrandbits(31), page=0, stop=R.choice([0, 1]),
+                                          ver=pk[0].rdh['ver'], df=2), [], raw_payload=b''))
+            ck.count('streams_with_rdh_only_packets')
+        sw = G.switch_format(R, pk) if si % 2 == 0 else []
+        ck.count('format_switch_streams', 1 if sw else 0)
+        forced = [i for i in sw if len(pk[i].words) > 2]
         # arbitrary corruption that keeps the payload layout in agreement with the header's data format
-        for _ in range(R.randint(1, 12)):
-            i = R.randrange(len(pk))
+        for ci in range(R.randint(1, 12)):
+            i = R.randrange(len(pk)) if not (ci == 0 and forced) else R.choice(forced)
             if pk[i].words and R.random() < 0.7:
                 k = R.randrange(len(pk[i].words))
                 w = bytearray(pk[i].words[k])
@@ -737,12 +775,17 @@ CHECKS = {}
 CHECKS = {
     'C01': dict(modules=['FastPasta.Props.C01'], run=run_c01, needs_harness=False, corr='run_conforming',
                 theorems=['FastPasta.C01.conforming_rdhs_accepted', 'FastPasta.C01.conforming_step', 'FastPasta.C01.conforming_run',
-                          'FastPasta.C01.conforming_words_never_ambiguous']),
+                          'FastPasta.C01.conforming_words_never_ambiguous', 'FastPasta.C01.conforming_its_accepted',
+                          'FastPasta.C01.conforming_stream_accepted', 'FastPasta.C01.conforming_its_step', 'FastPasta.Proto.payload_sim',
+                          'FastPasta.Proto.segs_sim', 'FastPasta.Proto.data_sim', 'FastPasta.Proto.cut_payload', 'FastPasta.Proto.payload_words',
+                          'FastPasta.C01.run_ids_nodup']),
     'C02': dict(modules=['FastPasta.Props.C02'], run=run_c02, needs_harness=False, corr='run_faulted',
                 theorems=['FastPasta.C02.rdh_sanity_fault_detected', 'FastPasta.C02.rdh_running_fault_detected', 'FastPasta.C02.sanity_mode_no_e11',
                           'FastPasta.C02.ihw_fault_detected', 'FastPasta.C02.tdh_fault_detected', 'FastPasta.C02.tdt_fault_detected',
                           'FastPasta.C02.ddw0_fault_detected', 'FastPasta.C02.ddw0_needs_stop_bit', 'FastPasta.C02.ddw0_needs_page_gt_0',
-                          'FastPasta.C02.ihw_needs_stop_0', 'FastPasta.C02.tdh_after_ihw_rules', 'FastPasta.C02.tdh_continuation_rule']),
+                          'FastPasta.C02.ihw_needs_stop_0', 'FastPasta.C02.tdh_after_ihw_rules', 'FastPasta.C02.tdh_continuation_rule',
+                          'FastPasta.C02.ihw_fault_after_conforming_prefix', 'FastPasta.C02.tdh_fault_after_conforming_prefix',
+                          'FastPasta.C02.ddw0_fault_after_conforming_prefix', 'FastPasta.C01.conforming_its_run_to']),
     'C06': dict(modules=['FastPasta.Props.C06'], run=run_c06, needs_harness=True, corr='link_*',
                 theorems=['FastPasta.C06.dispatch_partition', 'FastPasta.C06.interleave_invariant', 'FastPasta.C06.other_links_irrelevant',
                           'FastPasta.C06.step_inv', 'FastPasta.C06.run_inv', 'FastPasta.C06.upd_other', 'FastPasta.C06.upd_own']),
